@@ -20,6 +20,7 @@ import (
 	"encoding/json"
 	"errors"
 	"fmt"
+	"github.com/mimiro-io/datahub/internal/verifhook"
 	"math"
 	"os"
 	"path/filepath"
@@ -1698,9 +1699,13 @@ func (s *Store) ExecuteTransaction(transaction *Transaction) error {
 		datasets[k] = dataset.(*Dataset)
 		s.MetaCtx.RegisterTransactionSink(k)
 
+		verifhook.LockWait("ds:" + k)
 		dataset.(*Dataset).WriteLock.Lock()
+		verifhook.LockHeld("ds:" + k)
 		// release lock at end regardless
+		defer verifhook.LockFree("ds:" + k)
 		defer dataset.(*Dataset).WriteLock.Unlock()
+		verifhook.Point("txn.afterLock")
 	}
 
 	txnTime := time.Now().UnixNano()
@@ -1719,15 +1724,18 @@ func (s *Store) ExecuteTransaction(transaction *Transaction) error {
 		updateCountsPerDataset[k] = newItems
 	}
 
+	verifhook.Point("txn.beforeIDCommit")
 	err := s.commitIDTxn()
 	if err != nil {
 		return err
 	}
+	verifhook.Point("txn.afterIDCommit")
 
 	err = txn.Commit()
 	if err != nil {
 		return err
 	}
+	verifhook.Point("txn.afterCommit")
 
 	// update the txn counts
 	for k, v := range updateCountsPerDataset {
